@@ -216,6 +216,51 @@ func runC20(ctx *core.Ctx) {
 		}
 		cs.Flush(lc)
 	})
+	// URL normalisation on its own: one tag, one URL, every URL position; URL option shapes incl. UGC
+	ctx.Run("url-normalisation", ctx.N(400, 6000), func(cs *core.Case) {
+		r := cs.R
+		var ops []spec.Op
+		switch cs.Index % 5 {
+		case 0:
+			ops = []spec.Op{{K: spec.KUGC}}
+		case 1:
+			ops = []spec.Op{{K: spec.KNew}, {K: spec.KStdURLs}}
+		case 2:
+			ops = []spec.Op{{K: spec.KNew}, {K: spec.KSwitch, Names: []string{spec.SwRelative}, B: true}, {K: spec.KSchemes, Names: []string{"http", "https", "ftp", "mailto", "tel", "x-app"}}, {K: spec.KSchemesMatching, Re: `^(web\+[a-z]+|git\+ssh)$`}}
+		case 3:
+			ops = []spec.Op{{K: spec.KNew}, {K: spec.KSwitch, Names: []string{spec.SwParseable}, B: true}, {K: spec.KSwitch, Names: []string{spec.SwRelative}, B: true}, {K: spec.KDataURIImages}}
+		default:
+			ops = []spec.Op{{K: spec.KNew}, {K: spec.KSchemes, Names: []string{"https"}}, {K: spec.KSchemeCustom, Names: []string{"http"}, Check: "always"}, {K: spec.KSwitch, Names: []string{spec.SwRelative}, B: r.Intn(2) == 0}}
+		}
+		if cs.Index%5 != 0 {
+			ops = append(ops, spec.Op{K: spec.KAllowAttrs, Attrs: []string{"href", "src", "cite", "poster", "x"}, Scope: "global"},
+				spec.Op{K: spec.KAllowElements, Names: []string{"a", "area", "link", "base", "blockquote", "q", "img", "audio", "video", "source", "track", "embed", "input", "p"}})
+			if r.Intn(3) == 0 {
+				ops = append(ops, spec.Op{K: spec.KSwitch, Names: []string{gen.Pick(r, []string{spec.SwNoFollow, spec.SwTargetBlank, spec.SwNoReferrerFQ})}, B: true})
+			}
+		}
+		env := NewEnv(ops)
+		if ok, why := inClassC20(env.Spec); !ok {
+			cs.Skip("url-normalisation policy outside the class: " + why)
+			return
+		}
+		lc := core.LocalCounts{}
+		for i := 0; i < 300; i++ {
+			pos := strings.Split(gen.Pick(r, []string{"a href", "area href", "blockquote cite", "q cite", "img src", "a href", "link href", "audio src", "p x"}), " ")
+			nd := &gen.Node{Name: pos[0], NoEnd: oracle.Void[pos[0]], Attrs: [][2]string{{pos[1], gen.HostileURL(r)}}}
+			if !nd.NoEnd {
+				nd.Kids = []*gen.Node{{Text: "t"}}
+			}
+			ob := observe(env, gen.Serialize(r, []*gen.Node{nd}, 0), 0)
+			cs.Eval()
+			lc["url_normalisation_cases"]++
+			if strings.Contains(ob.Out, pos[1]+"=") {
+				lc["url_normalisation_cases_url_kept"]++
+			}
+			judge(cs, ob, lc, cs.Index%5 == 0)
+		}
+		cs.Flush(lc)
+	})
 	for _, base := range []string{spec.KStrict, spec.KUGC} {
 		base := base
 		ctx.Run("shipped:"+base, ctx.N(200, 2000), func(cs *core.Case) {
@@ -234,4 +279,5 @@ func runC20(ctx *core.Ctx) {
 	ctx.MinNontrivial(int64(ctx.N(20000, 300000)))
 	ctx.Floor("double_sanitise_comparisons", 100000)
 	ctx.Floor("in_class_policies", 100)
+	ctx.Floor("url_normalisation_cases_url_kept", 10000)
 }
